@@ -934,7 +934,7 @@ def copy_fields_by_name(arr, names, vals):
         Created 2007, Erin Sheldon, NYU.
 
     """
-    if not isinstance(names, (list, np.ndarray)):
+    if not isinstance(names, (tuple, list, np.ndarray)):
         names = [names]
 
     if not isinstance(vals, (list, np.ndarray)):
